@@ -464,7 +464,10 @@ func (c *ClientConn) SendUpstreamOpenRequest(ctx context.Context, req *message.U
 	if !ok {
 		return nil, errors.Errorf("unexpected response %T", resp)
 	}
-	c.openUpstream(ctx, req.QoS, res.AssignedStreamID, res.AssignedStreamIDAlias)
+	if res.ResultCode == message.ResultCodeSucceeded {
+		// a refusal assigns nothing: registering its (zero) alias would take over another stream's entries
+		c.openUpstream(ctx, req.QoS, res.AssignedStreamID, res.AssignedStreamIDAlias)
+	}
 
 	return res, nil
 }
@@ -484,7 +487,9 @@ func (c *ClientConn) SendUpstreamResumeRequest(ctx context.Context, req *message
 		return nil, errors.Errorf("unexpected response %T", resp)
 	}
 
-	c.openUpstream(ctx, qoS, req.StreamID, res.AssignedStreamIDAlias)
+	if res.ResultCode == message.ResultCodeSucceeded {
+		c.openUpstream(ctx, qoS, req.StreamID, res.AssignedStreamIDAlias)
+	}
 
 	return res, nil
 }
